@@ -880,6 +880,8 @@ def oracle_history(vu, coords, requests, dtype="float", contour=None):
         plain = {"coords": snapshot, "swap": rq["swap"], "steps": rq["steps"], "steps_type": rq.get("steps_type", "list"), "coords_dtype": dtype}
         s, msg, _ = oracle_dc(vu, plain, r)
         if s is not None and not s.get("vertex_hit"):
+            if oracle_dc(vu, plain)[0] is not None:
+                continue        # fails on a fresh contour object as well: not a matter of history (the case stream reports it)
             return j, dict(s, history=True), "request %d of %d on one contour object (swap_axis=%r, steps=%r): %s" % (j + 1, len(requests), rq["swap"], rq["steps"], msg)
     if after != snapshot:
         return len(requests) - 1, {"function": "calculate_design_conditions", "clause": "contour-modified", "history": True}, \
